@@ -308,6 +308,7 @@ const (
 var causeNames = []string{"cancel", "deadline", "close-from-goroutine", "runtime-close", "cancel-with-custom-cause", "timeout-with-custom-cause"}
 
 type scenario struct {
+	Derived bool  `json:"host_reenters_with_derived_context,omitempty"`
 	Shape  string `json:"shape"`
 	Yield  bool   `json:"yield"`
 	Pad    int    `json:"padding"`
@@ -331,7 +332,10 @@ func (c07) Run(t *tape.Tape, cfg sim.Config) (res sim.Result) {
 	already := t.Chance(1, 10) && (cause == causeCancel || cause == causeDeadline || cause == causeCancelCause || cause == causeTimeoutCause)
 	k := 1 + t.Choose(6)
 	code := uint32(1 + t.Choose(200))
-	sc := scenario{Shape: shapeNames[shape], Yield: yield, Pad: pad, Cause: causeNames[cause], K: k, Code: code}
+	// host-entered loop: the host callback may re-enter the guest with a context DERIVED from the call's
+	// context (its own cancel function); the cause then ends the derived context only
+	derived := shape == shHostEntered && (cause == causeCancel || cause == causeCancelCause) && !already && t.Chance(1, 2)
+	sc := scenario{Shape: shapeNames[shape], Yield: yield, Pad: pad, Cause: causeNames[cause], K: k, Code: code, Derived: derived}
 	switch {
 	case already:
 		sc.Moment = "already-done-at-call"
@@ -395,7 +399,19 @@ func (c07) Run(t *tape.Tape, cfg sim.Config) (res sim.Result) {
 	hostFn := func(ctx context.Context, m api.Module, stack []uint64) {
 		tag := uint32(stack[0])
 		if tag == 9 {
-			// host-entered loop: call back into the guest with the same context
+			// host-entered loop: call back into the guest with the same context, or with a derived one
+			// whose cancel function replaces the outer one as the scenario's cause
+			if derived {
+				if cause == causeCancelCause {
+					ctx2, c2 := context.WithCancelCause(ctx)
+					cancelCause = c2
+					ctx = ctx2
+				} else {
+					ctx2, c2 := context.WithCancel(ctx)
+					cancel = c2
+					ctx = ctx2
+				}
+			}
 			_, err := m.ExportedFunction("spin").Call(ctx)
 			if err != nil {
 				panic(err)
